@@ -53,7 +53,14 @@ impl Model {
 
         self.meta
             .global_ventilation_l_s
-            .map(|n_v_g| 3.6 * n_v_g / vol_env_inh_net)
+            .map(|n_v_g| {
+                // Sin volumen habitable dentro de la envolvente térmica no hay tasa que calcular
+                if vol_env_inh_net > 0.0 {
+                    3.6 * n_v_g / vol_env_inh_net
+                } else {
+                    0.0
+                }
+            })
             .unwrap_or_default()
     }
 }
